@@ -337,3 +337,26 @@ package masswallet
 //@   loop#2 skip
 // (an unknown wallet id ends the task at once: nothing to retry)
 //@   ensures[C18] err != nil && old(ghostb("acctKnown", h.walletMgr.ksmgr, walletId)) ==> !finish
+
+// ---- C18: a storage error inside the loop that resets the import progress of importing wallets ends the step at
+// once: at every loop head no error is pending (so a failed write for one wallet can never be overwritten by the
+// next wallet's successful one and committed)
+//@ func (*NtfnsHandler).disconnectBlock
+//@   props C18
+//@   nopanic off
+//@   modifies *
+//@   only nothing
+//@   loop#1 invariant[C18] err == nil
+
+//@ func (*NtfnsHandler).reorg
+//@   props C18
+//@   nopanic off
+//@   modifies *
+//@   only nothing
+//@   loop#3 invariant[C18] err == nil
+//@ func (*NtfnsHandler).filterTxForImporting
+//@   props C18
+//@   nopanic off
+//@   modifies *
+//@   only nothing
+//@   loop#1 invariant[C18] err == nil
